@@ -52,7 +52,7 @@ func determine(r klog.Record, b txt.Block) *style {
 		})
 	}
 	for _, l := range b.Lines() {
-		if l.Indentation() != "" {
+		if !l.IsBlank() && l.Indentation() != "" {
 			s.indentation.Set(l.Indentation())
 			break
 		}
